@@ -186,7 +186,7 @@ type behaviour struct {
 var reduced = map[string]bool{
 	"mT/plain": true, "mT/zero": true, "mT/timens": true, "mA/plain": true, "mAB/plain": true, "mNone/plain": true,
 	"mProto/plain": true, "mCP/plain": true, "mPoison/zero": true, "mTerm/plain": true, "mDeliv/request": true, "mDeliv/seq": true,
-	"mEvt1/plain": true, "mEvt2/plain": true, "mNil/nil": true,
+	"mEvt1/plain": true, "mEvt2/plain": true, "mNil/nil": true, "mInt/digit": true, "mInt/neg": true, "mInt/big": true,
 }
 
 type env struct {
@@ -238,6 +238,8 @@ func keyArg(k string) any {
 		return new(Evt)
 	case "CE2":
 		return new(EVT)
+	case "CI":
+		return int(0)
 	case "NIL":
 		return nil
 	}
@@ -251,6 +253,7 @@ var keyNames = map[reflect.Type]string{
 	reflect.TypeFor[IfaceA]():                     "IA",
 	reflect.TypeFor[IfaceB]():                     "IB",
 	reflect.TypeFor[*Evt]():                       "CE1",
+	reflect.TypeFor[int]():                        "CI",
 	reflect.TypeFor[*EVT]():                       "CE2",
 	reflect.TypeFor[*actor.PoisonPill]():          "KPoison",
 	reflect.TypeFor[*actor.Terminated]():          "KTerm",
@@ -387,6 +390,9 @@ func samples(rng *rand.Rand) []sample {
 		sample{"mDeliv", "chunk", must(commands.NewChunkedSequencedMessage("sess", "id-2", 1+rng.Int63n(100), []byte{9}, true, false))},
 		sample{"mEvt1", "plain", &Evt{Amount: 1 + rng.Int63n(1000)}},
 		sample{"mEvt2", "plain", &EVT{Amount: "x" + strconv.Itoa(rng.Intn(100)), Other: 1 + rng.Int63n(1000)}},
+		sample{"mInt", "digit", 5}, // JSON text "5" is the CBOR integer -22
+		sample{"mInt", "neg", -20}, // CBOR byte 0x33 is the JSON text "3"
+		sample{"mInt", "big", 100000 + rng.Intn(1e9)},
 		sample{"mNil", "nil", nil},
 	)
 	return out
